@@ -522,6 +522,20 @@ func (w *vWorld) expire(p, s int) string {
 	return ""
 }
 
+// bfBarrier waits until the block fetcher goroutine has taken everything out of its response channel.  It handles a
+// message completely before it looks at its ticker again, so whatever the harness does next (expire a task, let the
+// hash fetcher hand over a hash set) is ordered after the responses delivered so far.
+func (w *vWorld) bfBarrier() {
+	bf := w.sy.blockFetcher
+	if bf == nil {
+		return
+	}
+	deadline := time.Now().Add(300 * time.Millisecond) // an ended (or parked) block fetcher never drains it
+	for len(bf.responseCh) > 0 && time.Now().Before(deadline) {
+		time.Sleep(100 * time.Microsecond)
+	}
+}
+
 // doStep performs one model action on the real syncer; "" = ok, otherwise why the script cannot be followed
 func (w *vWorld) doStep(steps []vStep, i int) string {
 	st := steps[i]
@@ -603,6 +617,7 @@ func (w *vWorld) doStep(steps []vStep, i int) string {
 		if !w.deliverTracked(w.chunkRsp(o, a.Kind)) {
 			return "blocked"
 		}
+		w.bfBarrier()
 	case "TaskTimeout":
 		for _, t := range a.Tasks {
 			if d := w.expire(t[0], t[1]); d != "" {
@@ -617,6 +632,7 @@ func (w *vWorld) doStep(steps []vStep, i int) string {
 		if !w.deliverTracked(w.addRsp(o, a.Ok)) {
 			return "blocked"
 		}
+		w.bfBarrier()
 	case "StaleOther":
 		w.mu.Lock()
 		var o *vOut
@@ -642,6 +658,7 @@ func (w *vWorld) doStep(steps []vStep, i int) string {
 		if !w.deliverTracked(w.addRsp(o, a.Ok)) {
 			return "blocked"
 		}
+		w.bfBarrier()
 	default:
 		return "unknown action " + a.Name
 	}
@@ -855,7 +872,7 @@ type vRunResult struct {
 	tainted  bool
 }
 
-func runBehaviour(par vParams, b *vBehaviour, seed int64, shortTO time.Duration) vRunResult {
+func runBehaviour(par vParams, b *vBehaviour, seed int64, shortTO time.Duration, withRestart bool) vRunResult {
 	rng := rand.New(rand.NewSource(seed))
 	w := newWorld(par, b.Ch, rng)
 	w.shortTO = shortTO
@@ -885,7 +902,7 @@ func runBehaviour(par vParams, b *vBehaviour, seed int64, shortTO time.Duration)
 	if len(w.viol) == 0 {
 		w.finish()
 	}
-	if len(w.viol) == 0 {
+	if len(w.viol) == 0 && withRestart {
 		w.restart()
 	}
 	// every accepted SyncStart is answered by exactly one notification
@@ -977,7 +994,7 @@ func TestVerifSyncer(t *testing.T) {
 			var r vRunResult
 			to := 150 * time.Millisecond
 			for attempt := 0; attempt < 4; attempt++ {
-				r = runBehaviour(in.Params, b, seed, to)
+				r = runBehaviour(in.Params, b, seed, to, in.RestartEvery <= 1 || bi%in.RestartEvery == 0)
 				if !r.tainted || len(r.viol) > 0 {
 					break
 				}
